@@ -199,11 +199,16 @@ def run_batcher(plan: dict, strategy, max_steps=40000):
                 else:
                     upd, _ = make_update(counter[0], size, unicode_text=bool(plan.get("unicode")) and counter[0] % 2 == 1)
                 try:
-                    state.create_checkpoint(upd, is_sync=bool(sync))
+                    if sync == "api" and not (plan.get("fail_at") or plan.get("page_fail_at")):
+                        # the wrapper's entry point for a synchronous checkpoint (plans with an injected failure use the plain call:
+                        # on failure this one stops the pipeline itself, which the trace specification does not describe)
+                        state.create_checkpoint_sync(upd)
+                    else:
+                        state.create_checkpoint(upd, is_sync=bool(sync))
                     i = st["last_put"][pname]
                     outcomes[i] = "ok" if sync else "async"
                     emit("PRet", p=pname, i=i, o=outcomes[i])
-                except BackgroundThreadError:
+                except (BackgroundThreadError, ApiBoom):
                     i = st["last_put"][pname]
                     if i:
                         outcomes[i] = "err"
@@ -259,4 +264,10 @@ def random_plan(rng: random.Random, allow_oversize=True, allow_fail=True):
             "empty_pages_at": (rng.choice([1, 2, 3]) if rng.random() < 0.25 else None),    # that answer continues with empty pages
             "unicode": rng.random() < 0.4,      # every other update carries non-ASCII text (6 wire bytes per character)
             "stagger": [[rng.choice([0.0, 0.0, 0.05, 0.2, 1.1])] for _ in range(nprod)]}
+    if plan["fail_at"] is None and plan["page_fail_at"] is None and rng.random() < 0.4:
+        # some synchronous calls go through create_checkpoint_sync (the entry point the wrapper uses)
+        for p in producers:
+            for it in p:
+                if it[1] is True and rng.random() < 0.5:
+                    it[1] = "api"
     return plan
